@@ -256,6 +256,9 @@ def record_random(rng, n_ops, names=("n1", "n2", "n3", "n4", "n5")):
                 ev = ("get", [m, n])
                 h = w.mgrs[m][None if n == NONE else n]
                 found = [o for o, s in w.objs.items() if s is h]
+                if not found:          # an object the manager was never seen to store: logged under a new id (the model will refuse it)
+                    w.objs[len(w.objs) + 1] = h
+                    found = [len(w.objs)]
                 res = found[0]
                 if res not in held:
                     held.append(res)
